@@ -11,6 +11,7 @@ from __future__ import annotations
 import numpy as np
 
 from .. import em, games, gm, seams
+from .. import prelude
 from ..core import Sim
 
 LEVEL = "exploration"
@@ -117,6 +118,7 @@ def run(sim: Sim) -> None:
     ctx = {"n": n, "computer": comp_name, "class": cls, "exact": exact, "path": path}
     sim.config.update(ctx)
     order = sim.shuffled(list(range(len(games.explorable_ids(n)))), "reveal-order")
+    prelude.warm_process(sim)
     explorable = games.explorable_ids(n)
     if path == "env":
         with sim.guard("C07.operation_raised"):
@@ -135,7 +137,9 @@ def run(sim: Sim) -> None:
         cid = explorable[a]
         mask_before = sum(1 << explorable[x] for x in revealed)
         # disturbances between reveals
-        d = sim.pick_weighted([("none", 6), ("probe", 2), ("torn", 1), ("evict", 1)], "disturbance")
+        d = sim.pick_weighted([("none", 6), ("probe", 2), ("torn", 1), ("evict", 1), ("other_use", 1)], "disturbance")
+        if d == "other_use":
+            prelude.warm_process(sim, label="midrun")
         with sim.guard("C07.operation_raised"):
             if d == "evict":
                 seams.clear_memos()
